@@ -35,12 +35,26 @@ def drop(d):
     shutil.rmtree(d, ignore_errors=True)
 
 
+PKG_DIR = {"wal_test": ".", "wal": ".", "integration": "integration", "integration_test": "integration",
+           "migrate_test": "migrate", "migrate": "migrate", "verifier_test": "verifier", "verifier": "verifier",
+           "segment": "segment", "segment_test": "segment", "metadb": "metadb", "metadb_test": "metadb",
+           "fs": "fs", "fs_test": "fs", "metrics": "metrics", "metrics_test": "metrics"}
+
+
 def parse_demo(path):
+    """placement and run command derived from the package clause and the Test function names"""
     txt = open(path).read()
-    m = re.search(r"<raft-wal>/(\S+)", txt)
-    place = m.group(1) if m else None
-    m = re.search(r"(go test [^\n]*)", txt)
-    run = m.group(1).strip() if m else None
+    m = re.search(r"^package (\w+)", txt, flags=re.M)
+    tests = re.findall(r"^func (Test\w+)\(", txt, flags=re.M)
+    if not m or not tests:
+        return None, None
+    pkg = m.group(1)
+    d = PKG_DIR.get(pkg)
+    if d is None:
+        d = "zzdemo_" + pkg  # a package of its own
+    place = os.path.normpath(os.path.join(d, "zz_demo_test.go"))
+    tags = "-tags verif " if "go:build verif" in txt else ""
+    run = "go test %s-vet=off -count=1 -timeout 4m -run '^(%s)$' ./%s" % (tags, "|".join(tests), d if d != "." else "")
     return place, run
 
 
